@@ -7,9 +7,24 @@
 // inject transport errors. A panic in a renewer goroutine kills the process: the parent (checks/c19.py) runs batches
 // of cases in child processes, sees which case was running, and restarts after it.
 //
+// Transport modes (5th word of a C line; the model never sees it):
+//
+//	direct (default)  client.NewVerifClient over the interposer as pb.LDLMClient; the Service methods are called in process
+//	net               the REAL client.New (Config + dial options) over a REAL *grpc.ClientConn on an in-memory listener, served
+//	                  by the REAL gRPC server of net/grpc (net/grpc.Run: stats handler, keepalive options, interceptor chain;
+//	                  see grpc_on.go / grpc_off.go); the interposer is the connection's unary client interceptor
+//	netpw             the same with a password: security.SecurityConfig.Password on the server, client.Config.Password in the client
+//
+// In every mode the interposer checks, on EVERY RPC the client sends (Lock, TryLock, Unlock, Renew; main goroutine and
+// renewer goroutines alike), that the RPC's context is derived from the context the client was created with (a marker
+// value put into that context must be visible: cancelling the client's context then reaches the RPC), and, with a password
+// configured, that the outgoing metadata carries it under "authorization". Deviations are written as '#ctx', '#auth' lines,
+// an RPC the server refuses with Unauthenticated as a '#refused' line (checks/c19.py judges them).
+//
 // Input  CD_CASES: a file in the line format shared with ocaml/client/driver.ml
 //
-//	C <id> <noauto 0|1> <maxretries>      schedule case; items follow
+//	C <id> <noauto 0|1> <maxretries> [direct|net|netpw]     schedule case; items follow
+//	I cancel                                   the context the client was created with is cancelled (not in the model)
 //	I lock|try <name> <T> <size> | I unlock <j> | I close | I adv <ns> | I hold <j> pre|post|both | I step <j>
 //	I compete <name> <size> | I probe
 //	I ubegin <j> | I usend <j> | I uend <j>    Unlock of hold j in steps: the call starts (its RPC is kept before the server),
@@ -41,8 +56,11 @@ import (
 
 	"google.golang.org/grpc"
 	"google.golang.org/grpc/codes"
+	"google.golang.org/grpc/metadata"
 	"google.golang.org/grpc/stats"
 	"google.golang.org/grpc/status"
+	"google.golang.org/grpc/test/bufconn"
+	"google.golang.org/protobuf/proto"
 
 	"github.com/imoore76/ldlm/client"
 	grpcsvc "github.com/imoore76/ldlm/net/grpc"
@@ -67,6 +85,7 @@ type ccase struct {
 	retry      bool
 	noauto     bool
 	maxRetries int
+	mode       string // direct | net | netpw
 	items      []item
 	rpc        string
 	codes      []int
@@ -93,7 +112,10 @@ func readCases(path string) ([]*ccase, error) {
 			if len(w) < 4 {
 				continue
 			}
-			cur = &ccase{id: w[1], noauto: w[2] == "1", maxRetries: atoi(w[3])}
+			cur = &ccase{id: w[1], noauto: w[2] == "1", maxRetries: atoi(w[3]), mode: "direct"}
+			if len(w) >= 5 {
+				cur.mode = w[4]
+			}
 		case "X":
 			if cur != nil {
 				out = append(out, cur)
@@ -170,6 +192,42 @@ type interposer struct {
 	faults  map[string][]int  // rpc kind -> status codes of its next calls (0 = go through; -1 = a non-status error)
 	attempt map[string]int
 	retry   bool              // retry case: log every attempt (#att)
+
+	marker   any    // value of markerKey{} in the context the client was created with
+	password string // netpw: what every RPC must carry as "authorization"
+}
+
+type markerKey struct{}
+
+// printable ASCII: gRPC metadata values cannot carry anything else
+const netPassword = "s3cret C19:pw~"
+
+// check looks at the context the client passed with an RPC of kind k for hold / call j.
+func (p *interposer) check(k string, j int, ctx context.Context) {
+	if p.marker != nil && ctx.Value(markerKey{}) != p.marker {
+		p.w(fmt.Sprintf("#ctx %s %d %d foreign", k, j, p.at()))
+	}
+	if p.password != "" {
+		md, _ := metadata.FromOutgoingContext(ctx)
+		v := md.Get("authorization")
+		switch {
+		case len(v) == 0:
+			p.w(fmt.Sprintf("#auth %s %d %d missing", k, j, p.at()))
+		case v[0] != p.password || len(v) != 1:
+			p.w(fmt.Sprintf("#auth %s %d %d wrong", k, j, p.at()))
+		}
+	}
+}
+
+// refused notes an RPC the server's password interceptor turned down.
+func (p *interposer) refused(k string, j int, err error) {
+	if err == nil {
+		return
+	}
+	if status.Code(err) == codes.Unauthenticated {
+		p.w(fmt.Sprintf("#refused %s %d %d %d", k, j, p.at(), int(codes.Unauthenticated)))
+	}
+	p.w(fmt.Sprintf("#err %s %d %d %d %s", k, j, p.at(), int(status.Code(err)), strings.Join(strings.Fields(err.Error()), " ")))
 }
 
 func (p *interposer) at() int64 { return int64(time.Since(p.start)) }
@@ -224,15 +282,87 @@ func (p *interposer) fault(k string) error {
 	return status.Error(codes.Code(c), "injected")
 }
 
+// direct mode: the interposer IS the client's pb.LDLMClient; an RPC that goes through calls the Service method in process.
 func (p *interposer) Lock(ctx context.Context, in *pb.LockRequest, _ ...grpc.CallOption) (*pb.LockResponse, error) {
-	return p.acquire("lock", in.Name, in.LockTimeoutSeconds, func() (*pb.LockResponse, error) { return p.svc.Lock(p.sctx, in) })
+	return p.acquire(ctx, "lock", in.Name, in.LockTimeoutSeconds, func() (*pb.LockResponse, error) { return p.svc.Lock(p.sctx, in) })
 }
 
 func (p *interposer) TryLock(ctx context.Context, in *pb.TryLockRequest, _ ...grpc.CallOption) (*pb.LockResponse, error) {
-	return p.acquire("try", in.Name, in.LockTimeoutSeconds, func() (*pb.LockResponse, error) { return p.svc.TryLock(p.sctx, in) })
+	return p.acquire(ctx, "try", in.Name, in.LockTimeoutSeconds, func() (*pb.LockResponse, error) { return p.svc.TryLock(p.sctx, in) })
 }
 
-func (p *interposer) acquire(kind, name string, lt *int32, f func() (*pb.LockResponse, error)) (*pb.LockResponse, error) {
+func (p *interposer) Unlock(ctx context.Context, in *pb.UnlockRequest, _ ...grpc.CallOption) (*pb.UnlockResponse, error) {
+	return p.unlock(ctx, in, func() (*pb.UnlockResponse, error) { return p.svc.Unlock(p.sctx, in) })
+}
+
+func (p *interposer) Renew(ctx context.Context, in *pb.RenewRequest, _ ...grpc.CallOption) (*pb.LockResponse, error) {
+	return p.renew(ctx, in, func() (*pb.LockResponse, error) { return p.svc.Renew(p.sctx, in) })
+}
+
+// net modes: the interposer is the unary client interceptor of the client's real connection; an RPC that goes through is
+// invoked on that connection with the context the client passed.
+func (p *interposer) intercept(ctx context.Context, method string, req, reply any, cc *grpc.ClientConn, invoker grpc.UnaryInvoker, opts ...grpc.CallOption) error {
+	deliver := func(resp proto.Message, err error) error {
+		if err != nil {
+			return err
+		}
+		if out, ok := reply.(proto.Message); ok && resp != nil && resp != out {
+			proto.Reset(out)
+			proto.Merge(out, resp)
+		}
+		return nil
+	}
+	lockFwd := func() (*pb.LockResponse, error) {
+		out := new(pb.LockResponse)
+		if err := invoker(ctx, method, req, out, cc, opts...); err != nil {
+			return nil, err
+		}
+		return out, nil
+	}
+	switch in := req.(type) {
+	case *pb.LockRequest:
+		r, err := p.acquire(ctx, "lock", in.Name, in.LockTimeoutSeconds, lockFwd)
+		if err != nil {
+			return err
+		}
+		return deliver(r, nil)
+	case *pb.TryLockRequest:
+		r, err := p.acquire(ctx, "try", in.Name, in.LockTimeoutSeconds, lockFwd)
+		if err != nil {
+			return err
+		}
+		return deliver(r, nil)
+	case *pb.RenewRequest:
+		r, err := p.renew(ctx, in, lockFwd)
+		if err != nil {
+			return err
+		}
+		return deliver(r, nil)
+	case *pb.UnlockRequest:
+		r, err := p.unlock(ctx, in, func() (*pb.UnlockResponse, error) {
+			out := new(pb.UnlockResponse)
+			if err := invoker(ctx, method, req, out, cc, opts...); err != nil {
+				return nil, err
+			}
+			return out, nil
+		})
+		if err != nil {
+			return err
+		}
+		return deliver(r, nil)
+	}
+	p.w("#unknown-rpc " + method)
+	return invoker(ctx, method, req, reply, cc, opts...)
+}
+
+func (p *interposer) acquire(ctx context.Context, kind, name string, lt *int32, f func() (*pb.LockResponse, error)) (*pb.LockResponse, error) {
+	p.mu.Lock()
+	j0 := p.curCall
+	tear0 := p.tear
+	p.mu.Unlock()
+	if !tear0 {
+		p.check(kind, j0, ctx)
+	}
 	if err := p.fault(kind); err != nil {
 		return nil, err
 	}
@@ -247,6 +377,7 @@ func (p *interposer) acquire(kind, name string, lt *int32, f func() (*pb.LockRes
 	at := p.at()
 	resp, err := f()
 	if err != nil || resp == nil {
+		p.refused(kind, j, err)
 		p.w(fmt.Sprintf("fail %s %d %d", kind, j, at))
 		return resp, err
 	}
@@ -263,7 +394,7 @@ func (p *interposer) acquire(kind, name string, lt *int32, f func() (*pb.LockRes
 	return resp, nil
 }
 
-func (p *interposer) Unlock(ctx context.Context, in *pb.UnlockRequest, _ ...grpc.CallOption) (*pb.UnlockResponse, error) {
+func (p *interposer) unlock(ctx context.Context, in *pb.UnlockRequest, f func() (*pb.UnlockResponse, error)) (*pb.UnlockResponse, error) {
 	if err := p.fault("unlock"); err != nil {
 		return nil, err
 	}
@@ -276,6 +407,9 @@ func (p *interposer) Unlock(ctx context.Context, in *pb.UnlockRequest, _ ...grpc
 		p.mu.Unlock()
 		return &pb.UnlockResponse{Name: in.Name, Unlocked: true}, nil
 	}
+	p.mu.Unlock()
+	p.check("unlock", j, ctx)
+	p.mu.Lock()
 	if p.ufail[j] > 0 {
 		p.ufail[j]--
 		p.w(fmt.Sprintf("#ufail unlock %d %d", j, p.at()))
@@ -297,10 +431,11 @@ func (p *interposer) Unlock(ctx context.Context, in *pb.UnlockRequest, _ ...grpc
 	}
 	p.mu.Unlock()
 	at := p.at()
-	resp, err := p.svc.Unlock(p.sctx, in)
+	resp, err := f()
 	p.mu.Lock()
 	defer p.mu.Unlock()
 	if err != nil || resp == nil {
+		p.refused("unlock", j, err)
 		p.w(fmt.Sprintf("fail unlock %d %d", j, at))
 		return resp, err
 	}
@@ -344,7 +479,7 @@ func (p *interposer) wait(j int) {
 	p.mu.Lock()
 }
 
-func (p *interposer) Renew(ctx context.Context, in *pb.RenewRequest, _ ...grpc.CallOption) (*pb.LockResponse, error) {
+func (p *interposer) renew(ctx context.Context, in *pb.RenewRequest, f func() (*pb.LockResponse, error)) (*pb.LockResponse, error) {
 	p.mu.Lock()
 	j, known := p.keyIdx[in.Key]
 	if !known {
@@ -356,6 +491,7 @@ func (p *interposer) Renew(ctx context.Context, in *pb.RenewRequest, _ ...grpc.C
 	}
 	p.w(fmt.Sprintf("#sent renew %d %s %s %d %d", j, in.Name, p.keyTok(in.Key, true), in.LockTimeoutSeconds, p.at()))
 	p.mu.Unlock()
+	p.check("renew", j, ctx)
 	if err := p.fault("renew"); err != nil {
 		return nil, err
 	}
@@ -380,9 +516,10 @@ func (p *interposer) Renew(ctx context.Context, in *pb.RenewRequest, _ ...grpc.C
 	} else {
 		at := p.at()
 		p.mu.Unlock()
-		resp, err = p.svc.Renew(p.sctx, in)
+		resp, err = f()
 		p.mu.Lock()
 		if err != nil || resp == nil {
+			p.refused("renew", j, err)
 			p.w(fmt.Sprintf("fail renew %d %d", j, at))
 		} else {
 			p.w(fmt.Sprintf("rpc renew %d %s %s %d %d %s %s", j, in.Name, p.keyTok(in.Key, true), in.LockTimeoutSeconds, at, b01(resp.Locked), etok(resp.Error)))
@@ -426,6 +563,8 @@ type world struct {
 	svc     *grpcsvc.Service
 	ip      *interposer
 	cl      *client.Client
+	net     bool   // the client is a real client.New over a real connection
+	stopNet func() // stops the gRPC server of the net modes
 	cancel  context.CancelFunc
 	scancel []context.CancelFunc
 	xctx    context.Context
@@ -434,6 +573,10 @@ type world struct {
 }
 
 func boot(w func(string), noauto bool, maxRetries int) (*world, error) {
+	return bootMode(w, noauto, maxRetries, "direct")
+}
+
+func bootMode(w func(string), noauto bool, maxRetries int, mode string) (*world, error) {
 	cfg := &server.LockServerConfig{}
 	cfg.Shards = 16
 	cfg.LockGcInterval = 30 * time.Minute
@@ -457,10 +600,41 @@ func boot(w func(string), noauto bool, maxRetries int) (*world, error) {
 	}
 	sctx := conn()
 	x.xctx = conn()
+	marker := new(int)
 	x.ip = &interposer{svc: x.svc, sctx: sctx, start: time.Now(), w: w, keyIdx: map[string]int{}, arm: map[int]string{},
-		gates: map[int]*gate{}, faults: map[string][]int{}, attempt: map[string]int{}, uarm: map[int]bool{}, ufail: map[int]int{}, ugates: map[int]*gate{}}
-	cctx, cancel := context.WithCancel(context.Background())
+		gates: map[int]*gate{}, faults: map[string][]int{}, attempt: map[string]int{}, uarm: map[int]bool{}, ufail: map[int]int{}, ugates: map[int]*gate{},
+		marker: marker}
+	cctx, cancel := context.WithCancel(context.WithValue(context.Background(), markerKey{}, marker))
 	x.cancel = cancel
+	if mode == "net" || mode == "netpw" {
+		// the real gRPC server of net/grpc on an in-memory listener, the real client.New dialling it
+		pw := ""
+		if mode == "netpw" {
+			pw = netPassword
+		}
+		x.ip.password = pw
+		lis := bufconn.Listen(1 << 16)
+		stop, err := startGrpc(x.svc, lis, pw)
+		if err != nil {
+			cancel()
+			closer()
+			return nil, err
+		}
+		x.stopNet = stop
+		x.net = true
+		cl, err := client.New(cctx, client.Config{Address: "passthrough:///bufconn", NoAutoRenew: noauto, MaxRetries: maxRetries, Password: pw},
+			grpc.WithContextDialer(func(ctx context.Context, _ string) (net.Conn, error) { return lis.DialContext(ctx) }),
+			grpc.WithIdleTimeout(0), grpc.WithUnaryInterceptor(x.ip.intercept))
+		if err != nil {
+			stop()
+			cancel()
+			closer()
+			return nil, err
+		}
+		x.cl = cl
+		w("#mode " + mode + " " + grpcFrontKind)
+		return x, nil
+	}
 	x.cl = client.NewVerifClient(cctx, x.ip, closerFn(func() error {
 		x.ip.mu.Lock()
 		x.ip.closed = true
@@ -504,6 +678,13 @@ func (x *world) teardown() {
 		x.ip.urelease(j)
 	}
 	synctest.Wait()
+	if x.net {
+		// not Client.Close(): it would Stop() renewers that have already ended with the client's context
+		x.cl.VerifCloseConn()
+		synctest.Wait()
+		x.stopNet()
+		synctest.Wait()
+	}
 	for _, c := range x.scancel {
 		c()
 	}
@@ -551,7 +732,7 @@ func (x *world) listing() string {
 }
 
 func runSchedule(c *ccase, w func(string)) {
-	x, err := boot(w, c.noauto, c.maxRetries)
+	x, err := bootMode(w, c.noauto, c.maxRetries, c.mode)
 	if err != nil {
 		w("B boot-error " + err.Error())
 		return
@@ -631,6 +812,9 @@ func runSchedule(c *ccase, w func(string)) {
 			if it.ns > 0 {
 				time.Sleep(time.Duration(it.ns))
 			}
+		case "cancel":
+			w(fmt.Sprintf("#call cancel %d", x.at()))
+			x.cancel()
 		case "hold":
 			x.ip.mu.Lock()
 			x.ip.arm[it.j] = it.stage
